@@ -30,6 +30,8 @@ def gen(rng):
     for L in layers:
         for c in CATS_CLEAR:
             L["locals"][c] = []
+        # (no inherited objects at all here: conflicts between value-inherited objects are C09's subject and make loading fail)
+        L["jobs"], L["unit_groups"] = [], {}
         for p in L["parents"]:
             p["excl"] = {c: [] for c in c09.EXCL_TAG}
         cps = []
